@@ -124,7 +124,9 @@ Definition prepare_noinj (mv : msg) : option msg :=
    blocks of the [needs_body] names; internal subscribers of session/region.message_handler
    (object manager, inventory manager, ...) may read the blocks of further names - [touch] says
    which (every theorem is for an arbitrary [touch]).  A failing parse inside a subscriber is
-   caught and leaves the message raw (C02_failed_parse_keeps_raw). *)
+   caught and leaves the message raw (C02_failed_parse_keeps_raw).  The one state-dependent read -
+   UseCircuitCode's SessionID, read only while the association has no session yet - is covered by
+   the same quantification (touch "UseCircuitCode" = true or false). *)
 Definition lazy_view (d : dict) (touch : ident -> bool) (m0 : msg) : msg :=
   if needs_body (name_of_ident (m_name m0)) || touch (m_name m0) then ensure_parsed d m0 else m0.
 
